@@ -12,6 +12,7 @@ import (
 	"bytes"
 	"fmt"
 	"sort"
+	"strings"
 	"testing"
 	"time"
 
@@ -38,7 +39,7 @@ var c17Denoms = [3]string{"uband", "uatom", "ufoo"} // ufoo is never part of the
 type amt3 [3]int64
 
 type c17Op struct {
-	K     string `json:"k"`               // create|deposit|withdraw|activate|deactivate|trigger|fund|update|end
+	K     string `json:"k"`               // create|deposit|withdraw|activate|deactivate|trigger|fund|update|reimport|end
 	U     int    `json:"u,omitempty"`     // signer (create/deposit/withdraw/fund) or offset from the creator (activate/deactivate/trigger/update)
 	T     int    `json:"t,omitempty"`     // late-bound tunnel: id = 1 + T mod (number of tunnels)
 	Ghost bool   `json:"ghost,omitempty"` // use the first id that does not exist
@@ -138,7 +139,7 @@ func genC17(rt *rapid.T) c17Case {
 		} else if creates >= 1 {
 			wCreate = 5
 		}
-		k := gen.Pick(rt, "op", wCreate, 26, 24, 15, 5, 3, 5, 13, 10)
+		k := gen.Pick(rt, "op", wCreate, 26, 24, 15, 5, 3, 5, 13, 10, 3)
 		if i == 0 {
 			k = 0
 		}
@@ -224,10 +225,45 @@ func genC17(rt *rapid.T) c17Case {
 				}
 			}
 			op.Keep = gen.Chance(rt, "keepintv", 1, 5)
+		case 9:
+			// genesis export -> import into a new application instance, then one block
+			op = c17Op{K: "reimport", Dt: gen.OneOf(rt, "dt", 1, 1, 5)}
 		default:
 			op = c17Op{K: "end", Dt: gen.OneOf(rt, "dt", 1, 1, 1, 5, 61)}
 		}
 		c.Ops = append(c.Ops, op)
+	}
+	// constructed opening (2 cases in 5): a TSS-route tunnel and an IBC-route tunnel, each created with exactly the
+	// minimum deposit by a different account and activated by its creator; the state is exported and re-imported while
+	// both are active - right away, or after some of the random operations
+	if gen.Chance(rt, "reimport-scenario", 2, 5) {
+		a := gen.Uniform(rt, "ua", nUsers)
+		b := (a + 1 + gen.Uniform(rt, "ub", nUsers-1)) % nUsers
+		routes := [2]string{"tss", "ibc"}
+		if gen.Chance(rt, "ibcfirst", 1, 2) {
+			routes = [2]string{"ibc", "tss"}
+		}
+		mk := func(u int, route string) c17Op {
+			return c17Op{K: "create", U: u, Mode: "min", Mask: minMask, Route: route, Intv: gen.OneOf[uint64](rt, "intv", 1, 60, 3600),
+				NSig: gen.OneOf(rt, "nsig", 1, 2, 3), Dev: gen.OneOf[uint64](rt, "dev", 50, 100, 2998), Hold: gen.Chance(rt, "hold", 1, 3)}
+		}
+		second := mk(b, routes[1])
+		second.Hold = false // both tunnels exist before the activations are bound
+		open := []c17Op{mk(a, routes[0]), second,
+			{K: "activate", T: 0, Hold: gen.Chance(rt, "hold", 1, 3)}, {K: "activate", T: 1, Hold: gen.Chance(rt, "hold", 1, 3)}}
+		rest := c.Ops[1:] // (the generated first op is the create that the opening replaces)
+		at := gen.Range(rt, "reimport-at", 0, 12)
+		if gen.Chance(rt, "reimport-now", 1, 2) {
+			at = 0
+		}
+		if at > len(rest) {
+			at = len(rest)
+		}
+		ops := append([]c17Op{}, open...)
+		ops = append(ops, rest[:at]...)
+		ops = append(ops, c17Op{K: "reimport", Dt: gen.OneOf(rt, "dt", 1, 1, 5)})
+		ops = append(ops, rest[at:]...)
+		c.Ops = ops
 	}
 	return c
 }
@@ -243,6 +279,7 @@ type refTunnel struct {
 	creator   int
 	dep       [nUsers]amt3
 	active    bool
+	route     string   // tss|ibc (create message; never changes in this world)
 	intv      uint64   // configuration: set by the create message, replaced only by a successful update of the creator
 	sigs      []sigDev //
 	immutable []byte   // marshalled tunnel record without IsActive/TotalDeposit/Interval/SignalDeviations
@@ -403,6 +440,9 @@ type pendTx struct {
 	intv   uint64
 }
 
+// the application cannot be initialised from a genesis document that it exported itself
+const sigImportPanics = "C17/genesis-import-panics"
+
 func runC17(c c17Case) *pbt.Verdict {
 	v := &pbt.Verdict{}
 	tp := tunneltypes.DefaultParams()
@@ -443,11 +483,69 @@ func runC17(c c17Case) *pbt.Verdict {
 		return -1
 	}
 
-	flush := func(dt int) bool {
-		res, err := ch.Block(txs, time.Duration(dt)*time.Second)
-		if err != nil {
-			v.Failf("C17/finalize", "block with %d txs failed: %v", len(txs), err)
+	reimports, reimpTSS, reimpIBC := 0, 0, 0
+	var flushBlock func(dt int, reimport bool) bool
+	flush := func(dt int) bool { return flushBlock(dt, false) }
+	// reimport: the operator's export -> start-from-exported-genesis path, then one block. Everything the reference
+	// ledger holds is carried by the exported documents (x/tunnel: params, count, tunnel records incl. IsActive,
+	// sequence, configuration, total deposit; deposit records; total fees. bank: balances. auth: accounts), so the
+	// reference is NOT touched and the block after the import is compared like every other block. What the format
+	// does not carry - packets and the latest-prices/interval-clock records - is rebuilt empty by the import; in this
+	// world they are empty anyway as long as nothing was sent, and nothing is asserted about them once something was.
+	doReimport := func(dt int) bool {
+		if len(txs) > 0 && !flush(1) {
 			return false
+		}
+		if dt < 1 {
+			dt = 1
+		}
+		if len(tunnels) > 0 && pbt.IsExcluded("C17", sigImportPanics) {
+			// registered open finding: the import of any state with a tunnel panics; stay out of that region
+			v.Count("reimport_skipped_known_finding", 1)
+			return true
+		}
+		reimports++
+		nTSS, nIBC := 0, 0
+		for _, t := range tunnels {
+			if t.active && t.route == "ibc" {
+				nIBC++
+			} else if t.active {
+				nTSS++
+			}
+		}
+		v.Count("reimports", 1)
+		v.Count("reimport_tunnels", int64(len(tunnels)))
+		v.Count("reimport_active_tss_tunnels", int64(nTSS))
+		v.Count("reimport_active_ibc_tunnels", int64(nIBC))
+		if nTSS > 0 {
+			reimpTSS++
+		}
+		if nIBC > 0 {
+			reimpIBC++
+		}
+		return flushBlock(dt, true)
+	}
+	flushBlock = func(dt int, reimport bool) bool {
+		var res *sim.BlockResult
+		var err error
+		if reimport {
+			res, err = ch.Reimport(time.Duration(dt) * time.Second)
+			if err != nil {
+				// the state was produced by accepted messages only: the node must be able to start from its own export
+				sig := "C17/genesis-import-fails"
+				if strings.Contains(err.Error(), "panic") {
+					sig = sigImportPanics
+				}
+				v.Failf(sig, "genesis export/import of a state with %d tunnels (built from accepted messages only) failed: %v", len(tunnels), err)
+				return false
+			}
+			k, cdc = ch.App.TunnelKeeper, ch.App.AppCodec() // a new application instance
+		} else {
+			res, err = ch.Block(txs, time.Duration(dt)*time.Second)
+			if err != nil {
+				v.Failf("C17/finalize", "block with %d txs failed: %v", len(txs), err)
+				return false
+			}
 		}
 		anySuccess := false
 		for i, p := range pending {
@@ -500,7 +598,10 @@ func runC17(c c17Case) *pbt.Verdict {
 			anySuccess = true
 			switch p.op.K {
 			case "create":
-				nt := &refTunnel{creator: p.signer, intv: p.intv, sigs: p.sigs}
+				nt := &refTunnel{creator: p.signer, intv: p.intv, sigs: p.sigs, route: "tss"}
+				if p.op.Route == "ibc" {
+					nt.route = "ibc"
+				}
 				nt.dep[p.signer] = p.amt
 				bal[p.signer] = sub(bal[p.signer], p.amt)
 				tunnels = append(tunnels, nt)
@@ -763,6 +864,12 @@ func runC17(c c17Case) *pbt.Verdict {
 			}
 			continue
 		}
+		if o.K == "reimport" {
+			if !doReimport(o.Dt) {
+				return v
+			}
+			continue
+		}
 		// late-bound tunnel
 		var tid uint64
 		var t *refTunnel
@@ -941,6 +1048,18 @@ func runC17(c c17Case) *pbt.Verdict {
 	v.Count("tunnels", int64(len(tunnels)))
 	v.Count("crossings", int64(crossings))
 	v.Count("crossings_active", int64(crossingsActive))
+	if reimports > 0 {
+		v.Class("genesis-reimport")
+	}
+	if reimpTSS > 0 {
+		v.Class("genesis-reimport-with-active-tss-tunnel")
+	}
+	if reimpIBC > 0 {
+		v.Class("genesis-reimport-with-active-ibc-tunnel")
+	}
+	if reimpTSS > 0 && reimpIBC > 0 {
+		v.Class("genesis-reimport-with-active-tss-and-ibc-tunnel")
+	}
 	v.Count("updates_on_active", int64(updActive))
 	v.Count("updates_on_inactive", int64(updInactive))
 	v.Count("updates_by_non_creator_refused", int64(updNonCreator))
